@@ -23,6 +23,7 @@ import (
 	client "github.com/influxdata/kapacitor/client/v1"
 	"github.com/influxdata/kapacitor/edge"
 	"github.com/influxdata/kapacitor/keyvalue"
+	"github.com/influxdata/kapacitor/models"
 	"github.com/influxdata/kapacitor/pipeline"
 	"github.com/influxdata/kapacitor/tick"
 	"github.com/influxdata/kapacitor/tick/ast"
@@ -168,6 +169,8 @@ func execOp(line string) string {
 		return execUDFRead([]byte(un(t[1])), k)
 	case "udfsrv":
 		return execUDFSrv(t[1:])
+	case "udfwrite":
+		return execUDFWrite(t[1:])
 	case "live":
 		return execLive(t[1], t[2])
 	}
@@ -500,6 +503,100 @@ func execUDFSrv(toks []string) string {
 	return strings.Join(outs, ",") + " " + errObs(err)
 }
 
+// execUDFWrite feeds the real udf.Server one point per kind (field "v" of that kind + field "c") and
+// decodes what the server wrote to the UDF process: per Point request the field names that arrived.
+type captureWC struct {
+	mu  sync.Mutex
+	buf bytes.Buffer
+}
+
+func (c *captureWC) Write(p []byte) (int, error) {
+	c.mu.Lock()
+	defer c.mu.Unlock()
+	return c.buf.Write(p)
+}
+func (c *captureWC) Close() error { return nil }
+
+func execUDFWrite(kinds []string) string {
+	pr, pw := io.Pipe()
+	out := &captureWC{}
+	s := udf.NewServer("task", "node", bufio.NewReader(pr), out, nopDiag{}, 0, func() {}, func() {})
+	if err := s.Start(); err != nil {
+		return "starterr"
+	}
+	go func() {
+		for range s.Out() {
+		}
+	}()
+	for i, k := range kinds {
+		var v interface{}
+		switch k {
+		case "i":
+			v = int64(1)
+		case "f":
+			v = 1.5
+		case "s":
+			v = "x"
+		case "b":
+			v = true
+		case "d":
+			v = time.Second
+		case "n":
+			v = nil
+		case "t":
+			v = time.Unix(1, 0)
+		case "u":
+			v = uint64(1)
+		default:
+			return "badop"
+		}
+		p := edge.NewPointMessage("m", "db", "rp", models.Dimensions{}, models.Fields{"v": v, "c": int64(1)}, nil, time.Unix(int64(i), 0).UTC())
+		select {
+		case s.In() <- p:
+		case <-time.After(5 * time.Second):
+			return "X hang"
+		}
+	}
+	// the writer goroutine handles the last point asynchronously; if it panics the process dies here
+	time.Sleep(20 * time.Millisecond)
+	pw.Close()
+	err := s.Stop()
+	pr.Close()
+	out.mu.Lock()
+	data := append([]byte(nil), out.buf.Bytes()...)
+	out.mu.Unlock()
+	r := bufio.NewReader(bytes.NewReader(data))
+	var buf []byte
+	var res []string
+	for {
+		req := new(agent.Request)
+		if e := agent.ReadMessage(&buf, r, req); e != nil {
+			break
+		}
+		if pt, ok := req.Message.(*agent.Request_Point); ok {
+			var names []string
+			for n := range pt.Point.FieldsInt {
+				names = append(names, n)
+			}
+			for n := range pt.Point.FieldsDouble {
+				names = append(names, n)
+			}
+			for n := range pt.Point.FieldsString {
+				names = append(names, n)
+			}
+			for n := range pt.Point.FieldsBool {
+				names = append(names, n)
+			}
+			sort.Strings(names)
+			res = append(res, strings.Join(names, ""))
+		}
+	}
+	if len(res) == 0 {
+		res = []string{"-"}
+	}
+	return strings.Join(res, ",") + " " + errObs(err)
+}
+
 // ---------------------------------------------------------------------------------------------
 // UDF service of the worker's TaskMaster: kit's sinks + `boom`, whose Open() panics inside runF
 
@@ -650,7 +747,7 @@ func execLive(node, badk string) string {
 		return n
 	}
 	want := 1 + liveCanariesAfter
-	deadline := time.Now().Add(5 * time.Second)
+	deadline := time.Now().Add(15 * time.Second)
 	for time.Now().Before(deadline) && (count(oid, false) < len(pts) || count(id, true) < want) {
 		time.Sleep(5 * time.Millisecond)
 		if node == "boom" && count(oid, false) >= len(pts) {
@@ -669,7 +766,7 @@ func execLive(node, badk string) string {
 		if err != nil {
 			taskErr = 1
 		}
-	case <-time.After(15 * time.Second):
+	case <-time.After(12 * time.Second):
 		return "X hang"
 	}
 	t.TM.StopTask(oid)
